@@ -117,12 +117,12 @@ func (p *punctuatedReader) ReadUntilPunctuation(lim int) (res []byte, err error)
 		switch err {
 		case nil, ErrPunctuated:
 			res = append(res, p.buf[0:n]...)
+			if len(res) >= lim {
+				return nil, ErrOverflow
+			}
 			if err == ErrPunctuated {
 				err = nil
 				return res, err
-			}
-			if len(res) >= lim {
-				return nil, ErrOverflow
 			}
 		case io.EOF:
 			err = io.ErrUnexpectedEOF
